@@ -2,7 +2,8 @@
    seen while it was loaded; it does not mention records, load order or setters.
      * every attribute that the hub restores (modifiable, not marked persisted: False) has the same value;
      * a persisted port with a value has that value again, and its driver — if the port is writable — received exactly
-       one write: that value through the write transform and the port's type coercion; nothing was written otherwise;
+       one write: that value through the write transform and the port's type coercion (no value when the transform of a
+       disabled port cannot be evaluated); nothing was written otherwise;
      * the history timestamp is the same. *)
 From QT Require Export C07.SaveLoad.
 Open Scope string_scope.
@@ -24,7 +25,7 @@ Section Spec.
     && (if persisted before && negb (is_null (p_value before))
         then eqb (p_value after) (p_value before)
              && (if p_writable before
-                 then writes_ok (eval_tw (p_boolean before) (p_integer before) (tw_text before) (p_value before)) writes unknown
+                 then writes_ok (through_tw eval_tw (p_boolean before) (p_integer before) (tw_text before) (enabled_attr before) (p_value before)) writes unknown
                  else match writes with [] => true | _ => false end)
         else match writes with [] => true | _ => false end)
     && (p_hlt before =? p_hlt after)%Z.
